@@ -67,6 +67,11 @@ func (actorSelf *ActorDef[T]) Send(message T) {
 	if actorSelf.isClosed {
 		return
 	}
+	defer func() {
+		// Close() may land between the check above and the send (or while the send is
+		// parked): the message is dropped instead of panicking the sender.
+		recover()
+	}()
 
 	actorSelf.ch <- message
 }
